@@ -82,6 +82,7 @@ def run(K, ts_max=U64, witness=False):
     saw_advance2 = False
     advances = z3.IntVal(0)
     for i in range(K):
+        h.tag = 'step%d' % i
         ts = h.int("ts%d" % i, 0, ts_max).v
         before = ip.deref(h.call("WatermarkedStream::current_watermark", [h.get("s")])).f["timestamp"]
         h.require(ip.eq(before, I(wm)), "C13: watermark differs from the reference before an event")
